@@ -88,6 +88,15 @@ func Generate(id string, seed int64, run int, tier string) *vm.Plan {
 		for i := range p.Ops {
 			// (not under an iteration limit: the query's own evaluation does part of the rounds, so the
 			// Authorize that follows needs fewer of them than one that starts from scratch)
+			if p.Ops[i].K == "azauth" && r.Intn(2) == 0 {
+				// a round of a long-lived authorizer (same caveat, the limit being the one it was created with)
+				for j := range p.Ops[:i] {
+					if c := &p.Ops[j]; c.K == "az" && c.Out == p.Ops[i].A && (c.Lim == nil || c.Lim.MaxIter == 0) {
+						p.Ops[i].Flags = append(p.Ops[i].Flags, "query-before")
+					}
+				}
+				continue
+			}
 			if p.Ops[i].K == "verify" && !p.Ops[i].Has("noauth") && (p.Ops[i].Lim == nil || p.Ops[i].Lim.MaxIter == 0) && r.Intn(2) == 0 {
 				p.Ops[i].Flags = append(p.Ops[i].Flags, "query-before")
 			}
